@@ -152,6 +152,38 @@ pub fn gen(r: &mut Rng) -> String {
     format!("{:04x} {} {} {}", own, list(&rxs, ","), if txs.is_empty() { "-".into() } else { txs }, list(&ops, ";"))
 }
 
+/// the `i`-th registry history: every sequence of at most 6 operations over {register own-address, register capture-all,
+/// remove id 0 / 1 / 2, tick} (length-then-lexicographic), on a device 0x0005 whose link delivers, alternately, a packet
+/// for the device and a packet for another device (so that every tick reveals which handlers are live)
+pub fn enum_registry(i: u64) -> String {
+    const A: [&str; 6] = ["add/o", "add/c", "rm/0", "rm/1", "rm/2", "tick"];
+    let mut i = i;
+    let mut len = 0u32;
+    loop {
+        let c = 6u64.pow(len);
+        if i < c || len == 6 {
+            break;
+        }
+        i -= c;
+        len += 1;
+    }
+    let mut token = 0;
+    let ops: Vec<String> = (0..len)
+        .rev()
+        .map(|k| {
+            let a = A[((i / 6u64.pow(k)) % 6) as usize];
+            if a.starts_with("add") {
+                token += 1;
+                format!("{}/{}/-", a, token - 1)
+            } else {
+                a.to_string()
+            }
+        })
+        .collect();
+    let rxq: Vec<String> = (0..6).map(|k| if k % 2 == 0 { "D:0005:01".to_string() } else { "D:0009:02".to_string() }).collect();
+    format!("0005 {} - {}", rxq.join(","), list(&ops, ";"))
+}
+
 fn res_str(res: std::thread::Result<Result<(), ProtocolError>>) -> String {
     match res {
         Err(_) => "panic".into(),
